@@ -56,7 +56,7 @@ def main():
     else:
         dcmd = ["cargo", "test", "--offline", "--test", name]
     runline = next((l for l in txt.splitlines() if "cargo test" in l), "")
-    feat = re.search(r"--features[ =]([\w/,-]+)", runline)
+    feat = re.search(r"--features[ =]([\w/,-]+)", runline) or re.search(r"--features[ =]([\w/,-]+)", txt)
     if feat:
         dcmd += ["--features", feat.group(1)]
     rc1, out1 = sh(dcmd, wt)
